@@ -803,6 +803,14 @@ class Engine:
         for path in list(self.process_paths.keys()):
             if starts_with(path, deletion):
                 del self.process_paths[path]
+                # An update of this process that is still in flight is
+                # dropped with it. Collect it, so that the process
+                # (which lives on when it was moved) has no command
+                # pending.
+                advance = self.front.get(path)
+                if advance and advance['update']:
+                    advance['update'][0].get()
+                    advance['update'] = {}
 
         for path in list(self._step_paths):
             if starts_with(path, deletion):
